@@ -42,6 +42,12 @@ ROUTES = ["to_namespace", "from_samples", "to_numpy"]
 SPECIAL = [0.0, -0.0, 1.0, -1.5, np.inf, -np.inf, 1e-45, 1e-310, 16777217.0, 0.1, 1e38, 1e300, -123456.789]
 
 
+def refmath_eps(width):
+    from .. import refmath
+
+    return refmath.eps_of(width)
+
+
 def _cls(name):
     import aspire.samples as S
 
@@ -93,6 +99,11 @@ def _convert_cell(case, ctx):
         kw["log_evidence"] = -7.25
         kw["log_evidence_error"] = 0.125
     s = C(x=x, parameters=params, xp=xs, dtype=env.native_dtype(src, case["width"]), **kw)
+    carried = None
+    if weighted and case.get("selection"):
+        # a selection of a weighted set carries its parent's evidence (it is not the evidence of the selected rows)
+        s = s[0 : case["n"] : 2]
+        carried = (float(env.to_np(s.log_evidence)), float(env.to_np(s.log_evidence_error)))
     dreq, wreq = _request(case["req"], dst)
     route = case["route"]
     what = f"{route}"
@@ -149,8 +160,16 @@ def _convert_cell(case, ctx):
             g = getattr(out, f)
             if g is None or float(env.to_np(g)) != v:
                 ctx.fail(f"{what}:{f}", f"{f} became {g!r}, was {v!r}", case, field=f)
+    if carried is not None and route != "from_samples":
+        tol = 8 * refmath_eps("float32" if "float32" in (want_w, case["width"]) else "float64")
+        for f, v in zip(("log_evidence", "log_evidence_error"), carried):
+            g = getattr(out, f)
+            gv = None if g is None else float(env.to_np(g))
+            if gv is None or not (gv == v or abs(gv - v) <= tol * (abs(v) + 1)):
+                ctx.fail(f"{what}:carried-{f}", f"{f} carried by a selection of a weighted set was {v!r}, is {gv!r} after the conversion "
+                                                f"(recomputed from the selected rows instead of carried)", case, field=f)
     return {"nontrivial": src != dst or case["req"] != "none",
-            "labels": [route, f"{src}->{dst}", case["cls"], case["width"], "req:" + case["req"]]}
+            "labels": [route, f"{src}->{dst}", case["cls"], case["width"], "req:" + case["req"]] + (["carried-evidence"] if carried else [])}
 
 
 # ---- dtype helper spellings --------------------------------------------------------------------
@@ -205,6 +224,9 @@ def extra(tier, ctx, seed):
                 "route": route, "seed": int(seed), "n": 14, "d": 2}
         ctx.cell(case, _convert_cell)
         n_conv += 1
+        if cls == "Samples" and len(fields) == 3 and route != "from_samples":
+            ctx.cell(dict(case, selection=True, special=False), _convert_cell)
+            n_conv += 1
     n_help = 0
     kinds = sorted({k for k, _ in _spellings()})
     for kind, dst, w, fn in itertools.product(kinds, NS, WIDTHS, ["resolve", "convert", "encode-decode"]):
